@@ -536,6 +536,17 @@ func (g *gen) exprX(c *ctx, t Ty, d int, strict bool) *Expr {
 		case k < 18 && c.timeSet && !g.cfg.NoStrptime:
 			g.feat("builtin/timestamp")
 			return &Expr{Op: "timestamp", Ty: TInt}
+		case k == 19 && !strict && r.Chance(30):
+			// x++ / x-- used as a VALUE (postfix_expr): the incremented value
+			if ms := g.metricsOf(TInt, false); len(ms) > 0 {
+				m := vlib.Pick(r, ms)
+				ks := g.lvalue(c, m)
+				m.pinned = true
+				g.p.HasIncValue = true
+				g.feat("expr/incdec-value")
+				return &Expr{Op: "incv", Ty: TInt, M: m, Keys: ks, Neg: m.Kind != "counter" && r.Chance(40)}
+			}
+			return g.leaf(c, TInt, strict)
 		default:
 			return g.leaf(c, TInt, strict)
 		}
@@ -979,6 +990,63 @@ func rawLen(e *Expr) bool {
 
 const tsRe = `\d\d\d\d-\d\d-\d\dT\d\d:\d\d:\d\d`
 
+func (g *gen) orConstPair(c *ctx) []*Stmt {
+	r := g.r
+	var m *Metric
+	for _, x := range g.metricsOf(TInt, false) {
+		if len(x.Keys) == 0 {
+			m = x
+			break
+		}
+	}
+	if m == nil {
+		return nil
+	}
+	m.pinned = true
+	inc := &Stmt{Op: "inc", M: m, Ty: TInt}
+	pn := g.constPat()
+	lhs := &Expr{Op: "cmp", Ty: TBool, Sym: ">", CT: TInt, A: &Expr{Op: "get", Ty: TInt, M: m},
+		B: &Expr{Op: "int", Ty: TInt, I: int64(1 + r.Intn(3))}}
+	inner := g.enter(c, pn)
+	gr := pn.P.Groups[0]
+	mk := func() *Expr { return &Expr{Op: "cap", Ty: gr.Ty, Pat: pn, Grp: 1, CapName: gr.Name} }
+	rd := &Stmt{Op: "cond", E: &Expr{Op: "cmp", Ty: TBool, Sym: "==", CT: gr.Ty, A: mk(), B: mk()},
+		Then: []*Stmt{g.action(g.sub(inner))}}
+	then := append([]*Stmt{rd}, g.block(inner, 1+r.Intn(2))...)
+	g.feat("cond/counter-or-const-pattern")
+	return []*Stmt{inc, {Op: "cond", E: &Expr{Op: "or", Ty: TBool, A: lhs, B: &Expr{Op: "match", Ty: TBool, Pat: pn}}, Then: then}}
+}
+
+// constPat is a pattern written as one const name, with at least one group.
+func (g *gen) constPat() *PatNode {
+	r := g.r
+	g.npat++
+	p := &Pattern{Word: fmt.Sprintf("w%03d", g.npat)}
+	body := p.Word
+	ng := 1 + r.Intn(2)
+	for i := 0; i < ng; i++ {
+		gk := vlib.Pick(r, groupKinds)
+		if g.cfg.NoFloat && gk.ty == TFloat {
+			gk = groupKinds[0]
+		}
+		gr := Group{Ty: gk.ty, Re: gk.re}
+		if r.Chance(35) {
+			gr.Name = fmt.Sprintf("n%d%c", g.npat, 'a'+i)
+			body += " (?P<" + gr.Name + ">" + gr.Re + ")"
+		} else {
+			body += " (" + gr.Re + ")"
+		}
+		p.Groups = append(p.Groups, gr)
+	}
+	p.Text = body
+	cn := fmt.Sprintf("C%d", g.npat)
+	g.p.Consts = append(g.p.Consts, &Const{Name: cn, Lit: body})
+	p.Parts = []PatPart{{Const: cn}}
+	g.p.patterns = append(g.p.patterns, p)
+	g.feat("pattern/const")
+	return &PatNode{P: p}
+}
+
 // tsPat is a pattern with a timestamp-shaped String group.
 func (g *gen) tsPat() *PatNode {
 	g.npat++
@@ -996,7 +1064,7 @@ func (g *gen) cond(c *ctx, allowElse bool) *Stmt {
 	r := g.r
 	s := &Stmt{Op: "cond"}
 	var inner *ctx
-	var condPat *PatNode
+	var condPat, forceRead *PatNode
 	switch k := r.Intn(10); {
 	case k < 5:
 		var pn *PatNode
@@ -1017,9 +1085,14 @@ func (g *gen) cond(c *ctx, allowElse bool) *Stmt {
 		var rhs *Expr
 		if r.Chance(20) {
 			op = "or"
-			inner = g.shadow(c, pn) // captures are not safe under ||
+			inner = g.shadow(c, pn)
 			rhs = g.boolExpr(inner, 1, &pats)
 			inner = g.shadow(c, pn)
+			if r.Chance(35) {
+				// reading a group although the pattern may have missed: a runtime error then
+				inner = g.enter(c, pn)
+				g.feat("capref/maybe-unmatched")
+			}
 		} else {
 			// the right operand may use the captures the pattern just produced
 			inner = g.enter(c, pn)
@@ -1027,6 +1100,19 @@ func (g *gen) cond(c *ctx, allowElse bool) *Stmt {
 		}
 		s.E = &Expr{Op: op, Ty: TBool, A: &Expr{Op: "match", Ty: TBool, Pat: pn}, B: rhs}
 		g.feat("cond/pattern-" + op)
+	case k < 8 && r.Chance(60):
+		// <comparison> || CONST_PATTERN: when the left side holds the pattern is
+		// not evaluated on this line; a capture group read in the body is then a
+		// runtime error that ends the line (the reference: a group of a pattern
+		// that did not match has no value)
+		pn := g.constPat()
+		condPat = pn
+		pats := 0
+		lhs := g.boolExpr(g.shadow(c, pn), 1, &pats)
+		s.E = &Expr{Op: "or", Ty: TBool, A: lhs, B: &Expr{Op: "match", Ty: TBool, Pat: pn}}
+		inner = g.enter(c, pn)
+		forceRead = pn
+		g.feat("cond/expr-or-const-pattern")
 	default:
 		pats := 1
 		s.E = g.boolExpr(c, 2, &pats)
@@ -1040,12 +1126,28 @@ func (g *gen) cond(c *ctx, allowElse bool) *Stmt {
 	if inner.depth >= g.cfg.MaxDepth {
 		n = 1 + r.Intn(2)
 	}
-	s.Then = g.block(inner, n)
+	var pre []*Stmt
+	if forceRead != nil {
+		// the body certainly reads a group of the pattern (generated first: the
+		// text order is the order in which the checker fixes metric types)
+		gr := forceRead.P.Groups[0]
+		mk := func() *Expr { return &Expr{Op: "cap", Ty: gr.Ty, Pat: forceRead, Grp: 1, CapName: gr.Name} }
+		pre = []*Stmt{{Op: "cond", E: &Expr{Op: "cmp", Ty: TBool, Sym: "==", CT: gr.Ty, A: mk(), B: mk()},
+			Then: []*Stmt{g.action(g.sub(inner))}}}
+	}
+	s.Then = append(pre, g.block(inner, n)...)
 	if allowElse && r.Chance(25) {
 		s.HasElse = true
 		ec := g.sub(c)
 		if condPat != nil {
 			ec = g.shadow(c, condPat)
+			if r.Chance(35) && len(condPat.P.Groups) > 0 {
+				// the else branch is inside the condition's scope: its groups can be
+				// named there, and reading one is a runtime error (the pattern missed)
+				ec = g.enter(c, condPat)
+				ec.depth = c.depth + 1
+				g.feat("capref/in-else")
+			}
 		}
 		ec.elseTop = true
 		s.Else = g.block(ec, r.Intn(3))
@@ -1153,6 +1255,14 @@ func (g *gen) block(c *ctx, n int) []*Stmt {
 			s = g.decoUse(c, d)
 			// a decorator body may contain a conditional with an else / otherwise
 			seenElse = true
+		case k == 19 && canNest && c.depth == 0:
+			// n++ ;  n > K || CONST_PATTERN { ... $group ... }: the left side is false
+			// on the first lines (the pattern is evaluated) and true later (it is not)
+			if pair := g.orConstPair(c); pair != nil {
+				out = append(out, pair[0])
+				s = pair[1]
+				conds++
+			}
 		case k < 11:
 			s = g.delStmt(c)
 		case k < 13:
